@@ -182,9 +182,21 @@ package engine
 //@   ensures[fresh] err == nil ==> (result0 == nil || fresh(result0)) && (result1 == nil || fresh(result1))
 //@   ensures[freshrows] err == nil ==> (forall i int :: 0 <= i && i < len(result0) ==> fresh(result0[i]) && (result0[i].Vals == nil || fresh(result0[i].Vals)))
 //@   ensures[freshfields] err == nil ==> (forall j int :: 0 <= j && j < len(result1) ==> fresh(result1[j]) && typeof(result1[j].Column) == typ(string))
-//@   loop 2 invariant (tmpRows == nil || fresh(tmpRows)) && rowsFit(tmpFields, tmpRows) && (forall i int :: 0 <= i && i < len(tmpRows) ==> fresh(tmpRows[i]) && (tmpRows[i].Vals == nil || fresh(tmpRows[i].Vals)))
-//@   loop 3 invariant (tmpRows == nil || fresh(tmpRows)) && rowsFit(tmpFields, tmpRows) && (forall i int :: 0 <= i && i < len(tmpRows) ==> fresh(tmpRows[i]) && (tmpRows[i].Vals == nil || fresh(tmpRows[i].Vals)))
-//@   loop 4 invariant (tmpRows == nil || fresh(tmpRows)) && rowsFit(tmpFields, tmpRows) && (forall i int :: 0 <= i && i < len(tmpRows) ==> fresh(tmpRows[i]) && (tmpRows[i].Vals == nil || fresh(tmpRows[i].Vals)))
-//@   loop 5 invariant (tmpRows == nil || fresh(tmpRows)) && rowsFit(tmpFields, tmpRows) && (forall i int :: 0 <= i && i < len(tmpRows) ==> fresh(tmpRows[i]) && (tmpRows[i].Vals == nil || fresh(tmpRows[i].Vals)))
-//@   loop 6 invariant (tmpRows == nil || fresh(tmpRows)) && rowsFit(tmpFields, tmpRows) && (forall i int :: 0 <= i && i < len(tmpRows) ==> fresh(tmpRows[i]) && (tmpRows[i].Vals == nil || fresh(tmpRows[i].Vals)))
-//@   loop 7 invariant (tmpRows == nil || fresh(tmpRows)) && rowsFit(tmpFields, tmpRows) && (forall i int :: 0 <= i && i < len(tmpRows) ==> fresh(tmpRows[i]) && (tmpRows[i].Vals == nil || fresh(tmpRows[i].Vals)))
+//@   loop 2 invariant (tmpRows == nil || (fresh(tmpRows) && base(tmpRows) != base(lRows) && base(tmpRows) != base(rRows))) && rowsFit(tmpFields, tmpRows)
+//@   loop 2 invariant forall i int :: 0 <= i && i < len(tmpRows) ==> fresh(tmpRows[i]) && (tmpRows[i].Vals == nil || fresh(tmpRows[i].Vals))
+//@   loop 2 invariant rowsFit(lFields, lRows) && rowsFit(rFields, rRows)
+//@   loop 3 invariant (tmpRows == nil || (fresh(tmpRows) && base(tmpRows) != base(lRows) && base(tmpRows) != base(rRows))) && rowsFit(tmpFields, tmpRows)
+//@   loop 3 invariant forall i int :: 0 <= i && i < len(tmpRows) ==> fresh(tmpRows[i]) && (tmpRows[i].Vals == nil || fresh(tmpRows[i].Vals))
+//@   loop 3 invariant rowsFit(lFields, lRows) && rowsFit(rFields, rRows)
+//@   loop 4 invariant (tmpRows == nil || (fresh(tmpRows) && base(tmpRows) != base(lRows) && base(tmpRows) != base(rRows))) && rowsFit(tmpFields, tmpRows)
+//@   loop 4 invariant forall i int :: 0 <= i && i < len(tmpRows) ==> fresh(tmpRows[i]) && (tmpRows[i].Vals == nil || fresh(tmpRows[i].Vals))
+//@   loop 4 invariant rowsFit(lFields, lRows) && rowsFit(rFields, rRows)
+//@   loop 5 invariant (tmpRows == nil || (fresh(tmpRows) && base(tmpRows) != base(lRows) && base(tmpRows) != base(rRows))) && rowsFit(tmpFields, tmpRows)
+//@   loop 5 invariant forall i int :: 0 <= i && i < len(tmpRows) ==> fresh(tmpRows[i]) && (tmpRows[i].Vals == nil || fresh(tmpRows[i].Vals))
+//@   loop 5 invariant rowsFit(lFields, lRows) && rowsFit(rFields, rRows)
+//@   loop 6 invariant (tmpRows == nil || (fresh(tmpRows) && base(tmpRows) != base(lRows) && base(tmpRows) != base(rRows))) && rowsFit(tmpFields, tmpRows)
+//@   loop 6 invariant forall i int :: 0 <= i && i < len(tmpRows) ==> fresh(tmpRows[i]) && (tmpRows[i].Vals == nil || fresh(tmpRows[i].Vals))
+//@   loop 6 invariant rowsFit(lFields, lRows) && rowsFit(rFields, rRows)
+//@   loop 7 invariant (tmpRows == nil || (fresh(tmpRows) && base(tmpRows) != base(lRows) && base(tmpRows) != base(rRows))) && rowsFit(tmpFields, tmpRows)
+//@   loop 7 invariant forall i int :: 0 <= i && i < len(tmpRows) ==> fresh(tmpRows[i]) && (tmpRows[i].Vals == nil || fresh(tmpRows[i].Vals))
+//@   loop 7 invariant rowsFit(lFields, lRows) && rowsFit(rFields, rRows)
